@@ -195,7 +195,7 @@ func fnSRandMember(ctx *cmdContext, args map[string]any) (output respValue, err 
 	var countPtr *int
 	count := int(count64)
 	if countSpecified {
-		if count64 < -(1<<31) || count64 > (1<<31) {
+		if count64 < -(1<<20) || count64 > (1<<20) {
 			output.data = respErrorString("ERR value is out of range")
 			return
 		}
